@@ -17,6 +17,7 @@ mod c12;
 mod c13;
 mod c14;
 mod c15;
+mod c03;
 mod c16;
 mod c20;
 mod gen;
@@ -46,6 +47,9 @@ fn main() {
         "c11-record" => c11::record(rest),
         "c06-run" => c06::run(rest),
         "c20-run" => c20::run(rest),
+        "c03-record" => c03::record(rest),
+        "c03-replay" => c03::replay(rest),
+        "c03-single" => c03::single(rest),
         "c16-run" => c16::run(rest),
         "c07-replay" => c07::replay(rest),
         "c07-record" => c07::record(rest),
